@@ -35,7 +35,7 @@ ASSUMPTIONS = [
     "the textual layout of the tag is not fixed: containment of trace id / name / identifier plus the exact message suffix",
     "an explicitly empty trace id '' counts as 'not given'",
 ]
-REQUIRED_CLASSES = ["override-logger", "override-trace", "inherit-2-levels", "percent-in-name", "args", "mapping-argument", "outside-any-scope", "spawned-task"]
+REQUIRED_CLASSES = ["override-logger", "override-trace", "inherit-2-levels", "percent-in-name", "args", "mapping-argument", "outside-any-scope", "spawned-task", "format-and-arguments-disagree"]
 
 SINK: list = []
 _HANDLER = P.Capture(SINK)
@@ -126,7 +126,11 @@ def run_case(case) -> Outcome:
         if "t" in tuple(e["path"]):
             classes.add("spawned-task")
         if e["raised"] is not None:
-            out.violate("noraise", f"C19.noraise/log-call-raised/{where}", repr(e["raised"]))
+            out.violate("noraise", f"C19.noraise/log-call-raised/{where}{'/format-and-arguments-disagree' if e.get('bad') else ''}", repr(e["raised"]))
+            continue
+        if e.get("bad"):
+            # format and arguments disagree: the call must not raise; whether / how the line appears is not specified
+            classes.add("format-and-arguments-disagree")
             continue
         mine = [(r, msg, err) for r, msg, err in rendered if token in msg]
         pct = ms is not None and any("%" in ops[q]["name"] for q in [*lineage(tuple(ms)), tuple(ms)])
@@ -198,11 +202,13 @@ def strategy(tier):
         st.tuples(st.just("r"), val),
     ).map(list)
     logop = st.builds(
-        lambda lv, f, x, m: {"k": "log", "level": lv, "fmt": f, "exc": x, "mapping": m},
+        lambda lv, f, x, m, bad: {"k": "log", "level": lv, "fmt": f, "exc": x, "mapping": m, "bad": bad},
         st.sampled_from(["debug", "info", "warning", "error"]),
         st.lists(seg, min_size=0, max_size=4),
         st.booleans(),
         st.sampled_from([False, False, False, True]),  # arguments as ONE mapping with %(name)s keys
+        # a call whose format and arguments DISAGREE (a programming error of the caller): it must still not raise
+        st.sampled_from([None] * 7 + ["few", "many", "type", "str_raises"]),
     )
     sleep = st.builds(lambda t: {"k": "sleep", "t": t}, st.sampled_from([0.25, 0.5]))
     trace = st.one_of(st.none(), st.none(), st.sampled_from(["t-1", "trace%s", "", "T2"]))
